@@ -182,6 +182,32 @@ theorem resolve_errors (env : Env) :
                     (ih r.root (r.td :: r.scope) tt _ (type_not_scope (kw_of_one htt)) hbase')
                     (hmem h)
 
+/-- Reading `resolve_errors` the other way round, case by case: a name that binds to nothing
+(unknown name, unknown prefix, a typedef that is not visible from the reference) is an error. -/
+theorem unknown_is_error (env : Env) (fuel : Nat) (root : Mod) (scope : List Stmt) (t : Stmt) (stack : List TypeKey)
+    (ht : scopeKinds.contains t.kw = false) (hb : builtinNames.contains t.arg = false)
+    (hunbound : ∀ m td sc, ¬ Binds env.reg root scope t.arg m td sc) :
+    (resolveTypeF env fuel root scope t stack).errs ≠ [] := by
+  intro h
+  cases resolve_errors env fuel root scope t stack ht h with
+  | builtin hb' _ => rw [hb] at hb'; cases hb'
+  | derived m td sc tt hbind _ _ _ => exact hunbound m td sc hbind
+
+/-- … a typedef whose own type statement, or a union one of whose member types, cannot be resolved
+is an error (errors are handed up the derivation). -/
+theorem unresolvable_is_error (env : Env) (fuel : Nat) (root : Mod) (scope : List Stmt) (t : Stmt) (stack : List TypeKey)
+    (ht : scopeKinds.contains t.kw = false) (h : ¬ Resolvable env.reg root scope t) :
+    (resolveTypeF env fuel root scope t stack).errs ≠ [] :=
+  fun he => h (resolve_errors env fuel root scope t stack ht he)
+
+/-- … and so is a type statement that is defined in terms of itself or depends on one that is
+(`Cyclic`: a chain of "names the typedef whose type is" / "has the member type" steps that comes
+back to where it started), in every schema in which no name denotes two typedefs. -/
+theorem cyclic_is_error (env : Env) (hU : Unambiguous env.reg) (fuel : Nat) (root : Mod) (scope : List Stmt) (t : Stmt)
+    (stack : List TypeKey) (ht : scopeKinds.contains t.kw = false) (hc : Cyclic env.reg (root, scope, t)) :
+    (resolveTypeF env fuel root scope t stack).errs ≠ [] :=
+  fun he => resolvable_not_cyclic hU (resolve_errors env fuel root scope t stack ht he) hc
+
 /-- What a resolved type `y` shows of a derivation chain (nearest first) ending in the built-in
 `kind`: the base kind; units and default of the nearest typedef that states them; the path of the
 nearest type statement that states one; exactly the patterns of all type statements of the chain;
